@@ -1,5 +1,6 @@
-/* -include'd when compiling /repo/mtbl/threadpool.c: every pthread call the
- * pool makes becomes a scheduling point of sim/sched.c. */
+/* -include'd when compiling every library source of /repo (today only
+ * mtbl/threadpool.c calls pthreads): every pthread call becomes a scheduling
+ * point of sim/sched.c, also one that a later change adds to another file. */
 #ifndef SIM_SEAM_PTHREAD_H
 #define SIM_SEAM_PTHREAD_H
 #include <pthread.h>
@@ -8,11 +9,15 @@
 #define pthread_mutex_destroy	sim_pthread_mutex_destroy
 #define pthread_mutex_lock	sim_pthread_mutex_lock
 #define pthread_mutex_unlock	sim_pthread_mutex_unlock
+#define pthread_mutex_trylock	sim_pthread_mutex_trylock
 #define pthread_cond_init	sim_pthread_cond_init
 #define pthread_cond_destroy	sim_pthread_cond_destroy
 #define pthread_cond_wait	sim_pthread_cond_wait
+#define pthread_cond_timedwait	sim_pthread_cond_timedwait
 #define pthread_cond_signal	sim_pthread_cond_signal
 #define pthread_cond_broadcast	sim_pthread_cond_broadcast
 #define pthread_create		sim_pthread_create
 #define pthread_join		sim_pthread_join
+#define pthread_detach		sim_pthread_detach
+#define pthread_once		sim_pthread_once
 #endif
